@@ -32,10 +32,8 @@ def sig_string(sig) -> str:
     return "%s(%s)%s" % (sig.get("registered_name") or sig["name"], ",".join(ps), ret)
 
 
-def build_router(sig):
+def make_handler(sig):
     import pyteal as pt
-    from .recipe.build import reset_pyteal_state
-    reset_pyteal_state()
     abi = pt.abi
     txn_cls = {"txn": abi.Transaction, "pay": abi.PaymentTransaction, "keyreg": abi.KeyRegisterTransaction, "acfg": abi.AssetConfigTransaction,
                "axfer": abi.AssetTransferTransaction, "afrz": abi.AssetFreezeTransaction, "appl": abi.ApplicationCallTransaction}
@@ -88,12 +86,22 @@ def build_router(sig):
     else:
         fn.__annotations__["return"] = pt.Expr
     if sig.get("registered_name"):
-        handler = pt.ABIReturnSubroutine.name_override(sig["registered_name"])(fn)
-    else:
-        handler = pt.ABIReturnSubroutine(fn)
+        return pt.ABIReturnSubroutine.name_override(sig["registered_name"])(fn)
+    return pt.ABIReturnSubroutine(fn)
+
+
+def build_router(sig):
+    """router with the method under test and, optionally, sibling methods registered before / after it"""
+    import pyteal as pt
+    from .recipe.build import reset_pyteal_state
+    reset_pyteal_state()
     r = pt.Router("app", pt.BareCallActions(no_op=pt.OnCompleteAction(action=pt.Approve(), call_config=pt.CallConfig.CREATE)),
                   clear_state=pt.Approve())
-    r.add_method_handler(handler, method_config=pt.MethodConfig(no_op=pt.CallConfig.CALL))
+    sib = sig.get("siblings") or []
+    pos = sig.get("position", len(sib))
+    order = list(sib[:pos]) + [sig] + list(sib[pos:])
+    for s_ in order:
+        r.add_method_handler(make_handler(s_), method_config=pt.MethodConfig(no_op=pt.CallConfig.CALL))
     return r
 
 
@@ -179,12 +187,12 @@ def method_job(job: Dict[str, Any]) -> Dict[str, Any]:
     base = {"sig": sig, "signature": sig_string(sig), "version": job["version"], "job": job}
     # contract: exactly this method, with the types of the registration, and its selector is dispatched on
     ms = contract.get("methods", [])
-    csig = None
-    if len(ms) == 1:
-        m = ms[0]
-        csig = "%s(%s)%s" % (m["name"], ",".join(a["type"] for a in m["args"]), m["returns"]["type"])
-    if csig != sig_string(sig):
-        out["violations"].append(dict(base, kind="contract", detail="contract describes %r, registered %r" % (csig, sig_string(sig))))
+    csigs = ["%s(%s)%s" % (m["name"], ",".join(a["type"] for a in m["args"]), m["returns"]["type"]) for m in ms]
+    sib = sig.get("siblings") or []
+    pos = sig.get("position", len(sib))
+    want = [sig_string(x) for x in (list(sib[:pos]) + [sig] + list(sib[pos:]))]
+    if csigs != want:
+        out["violations"].append(dict(base, kind="contract", detail="contract describes %r, registered %r" % (csigs, want)))
     try:
         prog = parse(ap)
     except TealSyntaxError as e:
